@@ -1362,9 +1362,10 @@ void Interpret::getInterpolants(const ASTNode& n)
         PTRef group = grouping[i];
         if (is_top_level_assertion(group))
         {
-            int assertion_index = get_assertion_index(group);
-            assert(assertion_index >= 0);
-            setbit(p, static_cast<unsigned int>(assertion_index));
+            // the same formula may be asserted more than once: all its current occurrences belong to the group
+            for (int k = 0; k < assertions.size(); ++k) {
+                if (assertions[k] == group) { setbit(p, static_cast<unsigned int>(k)); }
+            }
         }
         else {
             bool ok = group != PTRef_Undef && logic->isAnd(group);
@@ -1374,9 +1375,9 @@ void Interpret::getInterpolants(const ASTNode& n)
                     PTRef tr = and_t[j];
                     ok = is_top_level_assertion(tr);
                     if (!ok) { break; }
-                    int assertion_index = get_assertion_index(tr);
-                    assert(assertion_index >= 0);
-                    setbit(p, static_cast<unsigned int>(assertion_index));
+                    for (int k = 0; k < assertions.size(); ++k) {
+                        if (assertions[k] == tr) { setbit(p, static_cast<unsigned int>(k)); }
+                    }
                 }
             }
             if (!ok) {
